@@ -35,4 +35,15 @@ theorem bookkeeping_excluded :
     lowerExclude.contains headerOrderKey = true ∧ lowerExclude.contains pseudoHeaderOrderKey = true := by
   decide
 
+/-- ALL internal keys: every `__name__` string literal anywhere in the module's sources is one of
+the two bookkeeping keys the models know (`isBookkeeping`) — there is no third in-band key — … -/
+theorem internal_keys_are_the_two :
+    sameSet internalKeys [Req.H1.headerOrderKey, Req.H1.pseudoHeaderOrderKey] = true := by decide
+
+/-- … and each of them is in the HTTP/1.1 table (exact key) and in the HTTP/2 / HTTP/3 table
+(lower-cased lookup): a key added to the sources without being excluded breaks this. -/
+theorem internal_keys_all_excluded :
+    internalKeys.all (fun k => rootExclude.contains k && lowerExclude.contains (Req.Ascii.lower k)) = true := by
+  decide
+
 end Bridge.C16
